@@ -56,6 +56,9 @@ class Engine(Interp):
             for k in e.keywords:
                 kwargs[k.arg] = self.ev(k.value)
             return self.call_method(recv, f.attr, args, kwargs, e)
+        if isinstance(f, ast.Name) and f.id == 'next' and f.id not in self.st.locals and e.args and isinstance(e.args[0], ast.GeneratorExp):
+            rest = [None] + [self.ev(a) for a in e.args[1:]]
+            return self.next_of_generator(e.args[0], rest, e)
         fv = self.ev(f)
         args = [self.ev(a) for a in e.args]
         for k in e.keywords:
@@ -69,6 +72,98 @@ class Engine(Interp):
         if isinstance(f, ast.Name) and f.id in self.src.funcs:
             return self.call_function(self.src.funcs[f.id], None, args, kwargs, e)
         raise OutOfSubset(f"call of {ast.unparse(f)} at line {e.lineno}")
+
+    def with_bound(self, target, value, fn):
+        """evaluate fn() with the local `target` bound to `value` (comprehension / lambda parameter), restoring it afterwards"""
+        saved = self.st.locals.get(target, NotImplemented)
+        self.st.locals[target] = value
+        try:
+            return fn()
+        finally:
+            if saved is NotImplemented:
+                self.st.locals.pop(target, None)
+            else:
+                self.st.locals[target] = saved
+
+    def extreme_of_collection(self, name, coll, kwargs, node):
+        """max(L) / min(L) / max(L, key=lambda t: e) [default=d]: some member r of L whose key no member exceeds (order of
+        equal keys abstracted); ValueError on an empty collection without default"""
+        if isinstance(coll, DictObj):
+            coll = self.to_list(coll, node)
+        if isinstance(coll, PyList):
+            if not coll.items:
+                raise OutOfSubset("max/min of an empty literal")
+            return self.call_builtin(name, list(coll.items), {}, node) if 'key' not in kwargs else self._extreme_fail()
+        if not isinstance(coll, ListObj):
+            raise OutOfSubset("max/min of a non-list")
+        keynode = None
+        for kw in getattr(node, 'keywords', []):
+            if kw.arg == 'key':
+                keynode = kw.value
+        if keynode is not None and not (isinstance(keynode, ast.Lambda) and len(keynode.args.args) == 1):
+            raise OutOfSubset("max/min with a key that is not a one-argument lambda")
+        self.bag_facts(coll)
+        has_default = 'default' in kwargs
+        if has_default:
+            if self.branch(coll.n == 0):
+                return kwargs['default']
+        else:
+            self.check_or_raise(coll.n > 0, 'ValueError', node, f"{name}() arg is an empty sequence")
+        rt = z3.Int(fresh_name('ext'))
+        self.st.assume(z3.Select(coll.cnt, rt) > 0)
+        r = self.elem_value(coll, rt)
+
+        def key_of(v):
+            if keynode is None:
+                return self.num(v)
+            return self.num(self.with_bound(keynode.args.args[0].arg, v, lambda: self.ev(keynode.body)))
+        kr = key_of(r)
+        x = z3.Int(fresh_name('exq'))
+        self.guards.append(z3.Select(coll.cnt, x) > 0)
+        try:
+            kx = key_of(self.elem_value(coll, x))
+        finally:
+            self.guards.pop()
+        self.st.assume(z3.ForAll([x], z3.Implies(z3.Select(coll.cnt, x) > 0, (kx <= kr) if name == 'max' else (kx >= kr))))
+        return r
+
+    def _extreme_fail(self):
+        raise OutOfSubset("max/min of a literal list with a key")
+
+    def next_of_generator(self, gen, args, node):
+        """next((e for x in L if c), default): a member x of L with c (the FIRST in list order: order is abstracted, so any), or
+        the default when no member satisfies c (StopIteration without default)"""
+        if not (isinstance(gen, ast.GeneratorExp) and len(gen.generators) == 1 and isinstance(gen.generators[0].target, ast.Name)):
+            raise OutOfSubset("next() of something else than a one-clause generator expression")
+        g0 = gen.generators[0]
+        src = self.ev(g0.iter)
+        if isinstance(src, DictObj):
+            src = self.to_list(src, node)
+        if not isinstance(src, ListObj):
+            raise OutOfSubset("next() over a non-list")
+        self.bag_facts(src)
+        tname = g0.target.id
+
+        def cond_for(v):
+            if not g0.ifs:
+                return z3.BoolVal(True)
+            return z3.And([self.with_bound(tname, v, (lambda i=i: self.cond(i))) for i in g0.ifs])
+        x = z3.Int(fresh_name('nxq'))
+        self.guards.append(z3.Select(src.cnt, x) > 0)
+        try:
+            cx = cond_for(self.elem_value(src, x))
+        finally:
+            self.guards.pop()
+        none = z3.ForAll([x], z3.Implies(z3.Select(src.cnt, x) > 0, z3.Not(cx)))
+        if self.branch(none):
+            if len(args) > 1:
+                return args[1]
+            raise RaiseSig('StopIteration', node=node)
+        rt = z3.Int(fresh_name('nxt'))
+        self.st.assume(z3.Select(src.cnt, rt) > 0)
+        r = self.elem_value(src, rt)
+        self.st.assume(cond_for(r))
+        return self.with_bound(tname, r, lambda: self.ev(gen.elt))
 
     def call_method(self, recv, name, args, kwargs, node):
         if isinstance(recv, BoundMethod):
@@ -369,7 +464,7 @@ class Engine(Interp):
             return Sym('num', z3.If(x >= 0, x, -x))
         if name in ('max', 'min'):
             if len(args) == 1:
-                raise OutOfSubset("max/min of a collection")
+                return self.extreme_of_collection(name, args[0], kwargs, node)
             if all(isinstance(a, (int, float)) for a in args):
                 return max(args) if name == 'max' else min(args)
             acc = self.num(args[0])
